@@ -180,7 +180,7 @@ func genGraphCase(r *rng, id string) *RobustCase {
 	victim := func() *js.Schema { return list[r.intn(len(list))] }
 	for n := 1 + r.intn(3); n > 0; n-- {
 		v := victim()
-		switch r.intn(19) {
+		switch r.intn(20) {
 		case 0:
 			v.AllOf = append(v.AllOf, nil)
 			desc = append(desc, "nil-in-allOf")
@@ -273,6 +273,18 @@ func genGraphCase(r *rng, id string) *RobustCase {
 				v.MaxProperties = &n
 			}
 			desc = append(desc, "odd-count")
+		case 18:
+			// a *Schema held by a value keyword is not part of the tree: a reference into it designates nothing
+			inner := &js.Schema{Type: "string", Properties: map[string]*js.Schema{"q": {}}}
+			*s = js.Schema{Properties: map[string]*js.Schema{"a": {Type: "integer"}}} // a root that resolves
+			if r.chance(1, 2) {
+				s.Examples = []any{inner, 1.0}
+				s.Ref = pick(r, []string{"#/examples/0", "#/examples/0/properties/q"})
+			} else {
+				s.Enum = []any{"x", inner}
+				s.DynamicRef = "#/enum/1"
+			}
+			desc = append(desc, "ref-into-value-keyword")
 		case 17:
 			v.Default = json.RawMessage(pick(r, []string{"{", "", "1 2", "[1,", "nul", "\"\xff", "{\"a\":}"}))
 			if v.Properties == nil {
@@ -295,6 +307,12 @@ func genGraphCase(r *rng, id string) *RobustCase {
 	}
 	base := pick(r, []string{"", "", "http://x/root", "#frag", "%", "http://[::1", "relative/path", "urn:a:b"})
 	vd := r.chance(1, 3)
+	intoValue := false // a reference into a value keyword leads nowhere in place: validation is safe to try
+	for _, d := range desc {
+		if d == "ref-into-value-keyword" && len(desc) == 1 {
+			intoValue = true
+		}
+	}
 	return &RobustCase{ID: id, Kind: "graph", Note: "nontrivial=1 shape=graph." + strings.Join(desc, "+"), run: func() []string {
 		var outs []string
 		var rs *js.Resolved
@@ -303,7 +321,7 @@ func genGraphCase(r *rng, id string) *RobustCase {
 			rs, err = s.Resolve(&js.ResolveOptions{BaseURI: base, ValidateDefaults: vd})
 			return err
 		}))
-		if rs != nil && !cyclic && inPlaceSafe(s) {
+		if rs != nil && !cyclic && (inPlaceSafe(s) || intoValue) {
 			for _, in := range []any{map[string]any{"a": 1.0, "nilprop": nil}, []any{1.0, "a"}, "s", nil, 1.0} {
 				outs = append(outs, classify(func() error { return rs.Validate(in) }))
 			}
@@ -418,6 +436,8 @@ func oddInstances(r *rng) []any {
 		// nil maps are empty objects: present members of typed maps, behind interfaces
 		map[string]map[string]any{"a": nil, "b": nil, "c": {}}, map[string]any{"a": nilMap, "b": map[string]map[string]int(nil), "c": nilMap, "d": nilMap},
 		map[string]rbNamedMap{"a": nil, "b": nil}, map[string]map[string]map[string]any{"a": nil, "b": {"a": nil, "b": nil}},
+		// maps whose element type is a non-empty interface: no container can be created in them
+		map[string]fmt.Stringer{}, map[string]rbIface{}, map[string]map[string]fmt.Stringer{"a": {}}, map[string]error{"zz": nil},
 	}
 }
 
